@@ -218,7 +218,7 @@ CLAIM = dict(
     text='Machine-checked proof (Coq 8.16.1) over an executable model of internal.Index / csi.Index / tabix.Index (Add with all exits, sort, Chunks with the tile-pruning loop, MergeChunks, the four strategies): '
          'for every coordinate-sorted in-range record list with a monotone chunk layout, Add never fails or panics and every query returns a chunk covering each overlapping record; error/empty answers imply no overlap. '
          'BAI: also in every state reached by sort / queries / MergeChunks with a covering strategy and after the byte-level WriteIndex/ReadIndex round trip (bai_complete, bai_complete_merged, strategies_cover, bai_complete_after_write_read); '
-         'CSI for every geometry with depth <= 10, minShift+3*depth <= 62 and tabix: built index and all sort/query/merge states (csi_complete, csi_complete_merged_partial, tabix_complete, tabix_complete_after_write_read; only the CSI write/read state is validated, not proved). '
+         'CSI for every geometry with depth <= 10, minShift+3*depth <= 62 and tabix: built index and all sort/query/merge states (csi_complete, csi_complete_merged, csi_complete_after_write_read, tabix_complete, tabix_complete_after_write_read); Add never fails under exactly sorted / in range / monotone layout (bai_add_never_fails, csi_add_never_fails). '
          'Bin containment is C16\'s theorem transported to this model; no premises, no axioms. The model is evaluated inside Coq against the implementation on every generated case; a brute-force overlap oracle (plus bam.Iterator over a real BAM) judges the implementation.',
     note='Trusted: Coq kernel, the hand-written model (validated by correspondence each run), harness/generators/oracle.',
     technique='Coq proof over hand-written executable model + vm_compute correspondence + brute-force oracle',
